@@ -318,17 +318,14 @@ class Part(object):
         """
         measures = np.array([(m.start.t, m.end.t) for m in self.iter_all(Measure)])
 
-        # correct for anacrusis
-        divs_per_beat = self.inv_beat_map(
-            1 + self.beat_map(0)
-        )  # find the divs per beat in the first measure
-        if (
-            measures[0][1] - measures[0][0]
-            < self.time_signature_map(0)[0] * divs_per_beat
-        ):
-            measures[0][0] = (
-                measures[0][1] - self.time_signature_map(0)[0] * divs_per_beat
-            )
+        # correct for anacrusis: the length of a full bar in divisions follows
+        # from the time signature and quarter duration in force at the start
+        # of the first measure (independently of beat mode and of changes
+        # after the first barline)
+        beats, beat_type = self.time_signature_map(measures[0][0])[:2]
+        full_bar = beats * (4 / beat_type) * self.quarter_duration_map(measures[0][0])
+        if measures[0][1] - measures[0][0] < full_bar:
+            measures[0][0] = measures[0][1] - full_bar
 
         if len(measures) == 0:  # no measures in the piece
             # default only one measure spanning the entire timeline
@@ -377,17 +374,14 @@ class Part(object):
                 for i, m in enumerate(m_it)
             ]
         )
-        # correct for anacrusis
-        divs_per_beat = self.inv_beat_map(
-            1 + self.beat_map(0)
-        )  # find the divs per beat in the first measure
-        if (
-            measures[0][1] - measures[0][0]
-            < self.time_signature_map(0)[0] * divs_per_beat
-        ):
-            measures[0][0] = (
-                measures[0][1] - self.time_signature_map(0)[0] * divs_per_beat
-            )
+        # correct for anacrusis: the length of a full bar in divisions follows
+        # from the time signature and quarter duration in force at the start
+        # of the first measure (independently of beat mode and of changes
+        # after the first barline)
+        beats, beat_type = self.time_signature_map(measures[0][0])[:2]
+        full_bar = beats * (4 / beat_type) * self.quarter_duration_map(measures[0][0])
+        if measures[0][1] - measures[0][0] < full_bar:
+            measures[0][0] = measures[0][1] - full_bar
 
         if len(measures) == 0:  # no measures in the piece
             # default only one measure spanning the entire timeline
